@@ -279,6 +279,19 @@ def run(ctx):
     ctx.decide(not dev_kw and moves, "C15.a2n", a2n.ident, loc_of(a2n, dev_kw[0] if dev_kw else None), "array_to_namespace moves arrays with safe_to_device and passes no device to asarray",
                "array_to_namespace hands the set's device to asarray (or no longer uses safe_to_device): to_namespace / from_samples forward the source set's device, so a PyTorch set converted "
                "to NumPy or JAX passes torch.device('cpu') to numpy.asarray / jnp.asarray, which raises", disc="device")
+    # ---- a conversion must succeed for every ordered pair: no helper turns a library's warnings into errors.  Frozen API fact: torch.as_tensor / torch.asarray
+    #      of a read-only NumPy array (NumPy's view of a JAX buffer is one) emits UserWarning("The given NumPy array is not writable ...") and converts; JAX emits
+    #      UserWarning when it truncates float64 without x64.  simplefilter("error") around the conversion makes those ordered pairs raise.
+    esc = []
+    for f_ in repo.all_functions():
+        for n_ in walk_no_nested(f_.node):
+            if isinstance(n_, ast.Call) and isinstance(n_.func, ast.Attribute) and n_.func.attr in ("simplefilter", "filterwarnings") and n_.args \
+                    and isinstance(n_.args[0], ast.Constant) and n_.args[0].value == "error":
+                esc.append((f_, n_))
+    ctx.decide(not esc, "C15.helpers", "package", loc_of(esc[0][0], esc[0][1]) if esc else "src/aspire",
+               "no function of the package escalates warnings to errors",
+               (f"{esc[0][0].ident} runs `{ast.unparse(esc[0][1])[:60]}`: inside that block a library warning becomes an exception -- PyTorch warns (UserWarning) when it is handed a read-only NumPy "
+                "array, which is what NumPy's view of a JAX buffer is, so a proposal drawn with flowjax and converted to torch raises instead of converting") if esc else "", disc="warnings-as-errors")
     # ---- conversion helpers (entries of the frozen transparent-wrapper table) are value preserving
     from ..evalr import TRANSPARENT_REPO_FUNCS as TRF
     for name in ("asarray", "to_numpy", "safe_to_device", "copy_array"):
@@ -605,6 +618,7 @@ MUTANTS = [
     M("zuko sample with autograd", "src/aspire/flows/torch/flows.py", "with torch.no_grad():\n            x_prime = self.flow().rsample((n_samples,))", "if True:\n            x_prime = self.flow().rsample((n_samples,))", "C15.grad"),
     M("array_to_namespace skips the conversion when the dtype already matches", _S, "x = asarray(x, self.xp, **kwargs)\n        x = safe_to_device(x, self.device, self.xp)\n        return x",
       "if self.device is None and hasattr(x, \"dtype\") and x.dtype == kwargs[\"dtype\"]:\n            return x\n        x = asarray(x, self.xp, **kwargs)\n        x = safe_to_device(x, self.device, self.xp)\n        return x", "C15.a2n"),
+    M("asarray turns backend warnings into errors", "src/aspire/utils.py", "return xp.asarray(x, **kwargs)", "with warnings.catch_warnings():\n        warnings.simplefilter(\"error\", UserWarning)\n        return xp.asarray(x, **kwargs)", "C15.helpers", within="asarray"),
     M("array_to_namespace into numpy always", _S, "x = asarray(x, self.xp, **kwargs)", "x = asarray(x, np, **kwargs)", "C15.a2n"),
 ]
 MUTANTS += [
